@@ -104,10 +104,12 @@ def parse(fmt, tokens, lenient):
 # value domains: (text, expected python value).  `tag` perturbs the values so that values sitting at different
 # positions / belonging to different options differ (a swap, a shift or a reversal is then visible).
 # ------------------------------------------------------------------------------------------------
-def domain(typ, nullable, tag, n, positional=False):
+def domain(typ, nullable, tag, n, positional=False, with_null=False):
+    """first n values of the type's list; 'null' is added for nullable kinds (-> None) and, for strings, also when
+    with_null is set or the list is exhausted (a non-nullable string keeps the text "null")"""
     if typ == "string":
-        d = [("s%d" % tag, "s%d" % tag), ("-%d" % (tag + 1), "-%d" % (tag + 1)), ("b %d" % tag, "b %d" % tag),
-             ("k=v%d" % tag, "k=v%d" % tag), ("00%d" % tag, "00%d" % tag)]
+        d = [("s%d" % tag, "s%d" % tag), ("-%d" % (tag + 1), "-%d" % (tag + 1)), ("k=v%d" % tag, "k=v%d" % tag),
+             ("b %d" % tag, "b %d" % tag), ("00%d" % tag, "00%d" % tag)]
         if positional:
             # things that look like options / separators: legal only behind `--`
             d[2:2] = [("--foo", "--foo"), ("-f", "-f"), ("", ""), ("--", "--"), ("-", "-")]
@@ -127,7 +129,7 @@ def domain(typ, nullable, tag, n, positional=False):
     else:
         raise ValueError(typ)
     out = d[:n]
-    if nul is not None and (nullable or n >= len(d)):
+    if nul is not None and (nullable or n >= len(d) or with_null):
         out.append(nul)
     return [list(x) for x in out]
 
@@ -149,19 +151,19 @@ def _tuples(dom_fn, lo, hi):
     return out
 
 
-def option_choices(spec, k, dom_n, multi_len, bare_none=False):
+def option_choices(spec, k, dom_n, multi_len, bare_none=False, with_null=False):
     long, short, mode, typ, nullable, default = spec["opts"][k]
     if mode == "flag":
         return [None, ["flag"]]
     if mode == "multi":
-        return [None] + [["val", t] for t in _tuples(lambda j: domain(typ, nullable, 10 * k + j, dom_n), 1, multi_len)]
-    ch = [None] + [["val", [v]] for v in domain(typ, nullable, 10 * k, dom_n)]
+        return [None] + [["val", t] for t in _tuples(lambda j: domain(typ, nullable, 10 * k + j, dom_n, False, with_null), 1, multi_len)]
+    ch = [None] + [["val", [v]] for v in domain(typ, nullable, 10 * k, dom_n, False, with_null)]
     if mode == "opt" and (default is not None or bare_none):
         ch.append(["bare"])
     return ch
 
 
-def argument_choices(spec, dom_n, multi_len):
+def argument_choices(spec, dom_n, multi_len, with_null=False):
     """all legal value vectors for the arguments (optional ones prefix-closed)"""
     args = spec["args"]
     res = []
@@ -173,24 +175,24 @@ def argument_choices(spec, dom_n, multi_len):
         name, mode, typ, nullable, default = args[i]
         if mode in ("multi", "reqmulti"):
             lo = 1 if mode == "reqmulti" else 0
-            for t in _tuples(lambda j: domain(typ, nullable, i + j, dom_n, True), lo, multi_len):
+            for t in _tuples(lambda j: domain(typ, nullable, i + j, dom_n, True, with_null), lo, multi_len):
                 res.append(acc + [t if t else None])
             return
         if mode == "opt":
             res.append(acc + [None] * (len(args) - i))  # this and every later argument absent
-        for v in domain(typ, nullable, i, dom_n, True):
+        for v in domain(typ, nullable, i, dom_n, True, with_null):
             rec(i + 1, acc + [[v]])
 
     rec(0, [])
     return res
 
 
-def assignments(spec, dom_n=2, arg_dom_n=None, multi_len=2, arg_multi_len=None, bare_none=False):
+def assignments(spec, dom_n=2, arg_dom_n=None, multi_len=2, arg_multi_len=None, bare_none=False, with_null=False):
     """simplest first: fewer given elements first (stable)"""
     arg_dom_n = dom_n if arg_dom_n is None else arg_dom_n
     arg_multi_len = multi_len if arg_multi_len is None else arg_multi_len
-    och = [option_choices(spec, k, dom_n, multi_len, bare_none) for k in range(len(spec["opts"]))]
-    ach = argument_choices(spec, arg_dom_n, arg_multi_len)
+    och = [option_choices(spec, k, dom_n, multi_len, bare_none, with_null) for k in range(len(spec["opts"]))]
+    ach = argument_choices(spec, arg_dom_n, arg_multi_len, with_null)
     out = []
     for a in ach:
         for o in itertools.product(*och):
